@@ -69,6 +69,8 @@ structure Cfg where
   minIonIndex : Nat
   tmt : Nat            -- 0 = none, else the plex size name (6, 10, 11, 16, 18), MS2 level
   overrideCharge : Bool  -- `override_precursor_charge`: the annotated charge is ignored
+  prefilter : Bool       -- `database.prefilter`: chunked pre-filter build of the database
+  prefilterChunk : Nat
 
 structure Spectrum where
   title : List UInt8
@@ -554,9 +556,16 @@ def pinViolation (rows : List Row) (pins : List PinRow) : Option String :=
   | some _ => some "pin_row_disagrees_with_tsv_row"
   | none => none
 
-/-- matched-fragment rows join on psm_id; their number per PSM equals matched_peaks; ordinals and
-    kinds are plausible for the peptide -/
-def fragViolation (rows : List Row) (frags : List FragRow) : Option String :=
+/-- neutral mass of the b (N-terminal) / y (C-terminal) ion with the given ordinal, from the peptide string -/
+def ionMassOf (p : ParsedPeptide) (isB : Bool) (ordinal : Nat) : Rat :=
+  let ms := p.residues.map (fun (c, m) => residueMass c + m.getD 0)
+  if isB then p.nterm.getD 0 + (ms.take ordinal).sum
+  else Sage.Gen.H2O + p.cterm.getD 0 + (ms.drop (ms.length - ordinal)).sum
+
+/-- matched-fragment rows join on psm_id; their number per PSM equals matched_peaks; kinds / ordinals are
+    plausible; `fragment_mz_calculated` is (ion mass + z·PROTON)/z recomputed from the PSM's peptide string,
+    and the experimental m/z lies within the fragment tolerance of it -/
+def fragViolation (run : Run) (rows : List Row) (frags : List FragRow) : Option String :=
   if frags.any (fun f => !(rows.any (fun r => r.psmId == f.psmId))) then some "fragment_row_without_psm" else
   match rows.find? (fun r => (frags.filter (fun f => f.psmId == r.psmId)).length != r.matchedPeaks) with
   | some _ => some "matched_peaks_ne_fragment_rows"
@@ -567,7 +576,25 @@ def fragViolation (rows : List Row) (frags : List FragRow) : Option String :=
       | some r => !(decide ((1 : Int) ≤ f.ordinal) && decide (f.ordinal < (r.peptideLen : Int)) && decide ((1 : Int) ≤ f.charge)
                     && (f.kind == bytesOfStr "b" || f.kind == bytesOfStr "y"))) with
     | some _ => some "fragment_ordinal_or_kind"
-    | none => none
+    | none =>
+      match frags.find? (fun f =>
+        match rows.find? (fun r => r.psmId == f.psmId) with
+        | none => true
+        | some r =>
+          match parsePeptide r.peptide with
+          | none => true
+          | some p =>
+            let z : Rat := ((f.charge.toNat : Nat) : Rat)
+            let mass := ionMassOf p (f.kind == bytesOfStr "b") f.ordinal.toNat
+            let want := (mass + z * Sage.Gen.PROTON) / z
+            let calcV := f32val f.mzCalc
+            let exp := f32val f.mzExp
+            let slack := ((r.peptideLen + 8 : Nat) : Rat) * absR want / (2 ^ 22 : Nat)
+            let (lo, hi) := tolBounds run.cfg.ftol (want - Sage.Gen.PROTON)
+            !(f32finite f.mzCalc && f32finite f.mzExp && absR (calcV - want) ≤ slack
+              && lo - slack ≤ exp - Sage.Gen.PROTON && exp - Sage.Gen.PROTON ≤ hi + slack)) with
+      | some _ => some "fragment_mz_ne_recomputed"
+      | none => none
 
 structure TmtRow where
   filename : List UInt8
@@ -617,13 +644,30 @@ def tmtViolation (run : Run) (rows : List TmtRow) : Option String :=
   | some _ => some "tmt_value_ne_most_intense_peak_in_window"
   | none => none
 
-/-- planted peptides: reported at rank 1 for their spectrum -/
+/-- residue multiset with I and L identified (isobaric): sorted list of codes -/
+def ilComposition (seq : List UInt8) : List UInt8 :=
+  let norm := seq.map (fun c => if c == 73 then (76 : UInt8) else c)
+  norm.foldl (fun acc c => (acc.filter (· < c)) ++ [c] ++ (acc.filter (fun x => !(x < c)))) []
+
+def sameSpectrumAs (file : Nat) (title : List UInt8) (r : Row) : Bool :=
+  r.filename == bytesOfStr "file" ++ natToBytes file ++ bytesOfStr ".mgf" && r.scannr == title
+
+/-- planted peptides: reported at rank 1 for their spectrum. When the planted target is displaced by
+    a DECOY made of the same residues up to I/L (hence with an identical b/y mass ladder only if the
+    reversal differs by I↔L swaps — an exact score tie that the stable sort resolves in favour of the
+    lower peptide index), the clause has its own, narrow name: that behaviour is a known finding. -/
 def plantedViolation (run : Run) (rows : List Row) : Option String :=
-  match run.planted.find? (fun pl =>
-    let fname := bytesOfStr "file" ++ natToBytes pl.file ++ bytesOfStr ".mgf"
-    !(rows.any (fun r => r.filename == fname && r.scannr == pl.title && r.rank == 1 && r.peptide == pl.peptide))) with
-  | some _ => some "planted_peptide_not_rank_1"
-  | none => none
+  run.planted.findSome? (fun pl =>
+    if rows.any (fun r => sameSpectrumAs pl.file pl.title r && r.rank == 1 && r.peptide == pl.peptide) then none else
+    match rows.find? (fun r => sameSpectrumAs pl.file pl.title r && r.rank == 1), parsePeptide pl.peptide with
+    | some top, some want =>
+      match parsePeptide top.peptide with
+      | some got =>
+        if top.label == -1 && got.seq != want.seq && ilComposition got.seq == ilComposition want.seq
+           && got.seq.head? == want.seq.head? && got.seq.getLast? == want.seq.getLast?
+        then some "planted_outranked_by_isobaric_decoy" else some "planted_peptide_not_rank_1"
+      | none => some "planted_peptide_not_rank_1"
+    | _, _ => some "planted_peptide_not_rank_1")
 
 /-! ## column tables (regenerated from runner.rs by the translator): header ↦ field -/
 
